@@ -84,11 +84,42 @@ theorem applyNoise_nonneg (nm : NoiseM) (hp : ∀ r a, nm = .loss r a → r ≤ 
   | replace => simp [Mix.applyNoise] at h
   | other => simp [Mix.applyNoise] at h
 
+theorem total_nonneg (m : Mixture) (h : MixNonneg m) : 0 ≤ Mix.total m := by
+  induction m with
+  | nil => simp [Mix.total_nil]
+  | cons x xs ih =>
+    obtain ⟨w, t⟩ := x
+    rw [Mix.total_cons]
+    exact add_nonneg (h (w, t) List.mem_cons_self) (ih (fun z hz => h z (List.mem_cons_of_mem _ hz)))
+
+theorem measureJoint_nonneg (q : Nat) (o : Bool) (m : Mixture) (h : MixNonneg m) : MixNonneg (Mix.measureJoint q o m) := by
+  intro z hz
+  unfold Mix.measureJoint at hz
+  rw [List.mem_filterMap] at hz
+  obtain ⟨y, hy, hj⟩ := hz
+  have hy0 := h y hy
+  rcases (jointBranch_tab q o y z hj).2 with e | e <;> rw [e]
+  · positivity
+  · exact hy0
+
+/-- the repaired (joint) measurement keeps the weights non-negative -/
 theorem measure_nonneg (q : Nat) (det : Bool) (m : Mixture) (h : MixNonneg m) : MixNonneg (Mix.measure q det m).1 := by
+  have htot : 0 ≤ Mix.total (Mix.measureJoint q false m) + Mix.total (Mix.measureJoint q true m) := by
+    rw [Mix.total_measureJoint_pair]; exact total_nonneg m h
   intro x hx
-  simp only [Mix.measure, List.map_map, List.mem_map] at hx
-  obtain ⟨⟨p, t⟩, hy, rfl⟩ := hx
-  exact h (p, t) hy
+  unfold Mix.measure at hx
+  simp only at hx
+  generalize (if det = true then !DM.isclose0 (Mix.total (Mix.measureJoint q true m))
+    else DM.isclose0 (Mix.total (Mix.measureJoint q false m))) = oc at hx
+  by_cases hw : 0 < (if oc = true then Mix.total (Mix.measureJoint q true m) else Mix.total (Mix.measureJoint q false m))
+  · rw [if_pos hw] at hx
+    simp only [List.mem_map] at hx
+    obtain ⟨z, hz, rfl⟩ := hx
+    exact div_nonneg (mul_nonneg (measureJoint_nonneg q oc m h z hz) htot) (le_of_lt hw)
+  · rw [if_neg hw] at hx
+    simp only [List.mem_map] at hx
+    obtain ⟨y, _, rfl⟩ := hx
+    simp
 
 theorem conditioned_nonneg (f : Tab → Tab) (outs : List Bool) (m : Mixture) (h : MixNonneg m) :
     MixNonneg (Mix.conditioned f outs m) := by
